@@ -34,6 +34,7 @@ KINDS = [
     ("rename_first", "ALTER TABLE {T} RENAME COLUMN a TO g;"),
     ("modify_first", "ALTER TABLE {T} MODIFY COLUMN a varchar(5);"),
     ("modify_last", "ALTER TABLE {T} MODIFY COLUMN c varchar(5);"),
+    ("rename_case", "ALTER TABLE {T} RENAME COLUMN b TO B;"),
 ]
 KNAME, KDDL = KINDS[KIND]
 
@@ -105,6 +106,10 @@ def effect_ok(base: dict, got: dict) -> bool:
         cols = deepcopy(base["columns"])
         cols[0]["name"] = "g"
         return got["columns"] == cols and got["alter"] == {"renamed_columns": [{"from": "a", "to": "g"}]}
+    if KNAME == "rename_case":
+        cols = deepcopy(base["columns"])
+        cols[1]["name"] = "B"
+        return got["columns"] == cols and got["alter"] == {"renamed_columns": [{"from": "b", "to": "B"}]}
     if KNAME in ("modify_first", "modify_last"):
         i = 0 if KNAME == "modify_first" else 2
         return _names(got) == ["a", "b", "c"] and got["columns"][i]["type"] == "varchar" and got["columns"][i]["size"] == 5 and \
@@ -138,6 +143,8 @@ def effect_ok(base: dict, got: dict) -> bool:
     return got == exp
 
 
+OTHER_DOTTED = [_parse(f'CREATE TABLE "{qual(strip(s_), "t")}" ({COLS});')[0] for s_ in SCH]  # a quoted name that spells schema.table
+BASE_DOTTED = [fmt([deepcopy(t)], "sql")[0] for t in OTHER_DOTTED]
 OTHER_NEAR = [_parse(f"CREATE TABLE {qual(s, 't$')} ({COLS});")[0] for s in SCH]
 BASE_NEAR = [fmt([deepcopy(t)], "sql")[0] for t in OTHER_NEAR]
 
@@ -151,16 +158,17 @@ def c_route(sd: int, pd: int, sr: int, pr: int, other_kind: int, target_first: b
 
     pre: 0 <= sd < NSC and 0 <= sr < NSC
     pre: 0 <= pd < NSP and 0 <= pr < NSP
-    pre: 0 <= other_kind <= 2
+    pre: 0 <= other_kind <= 3
+    pre: other_kind != 3 or sd != 0
     post: _
     """
     same_name_other = other_kind == 0
     target = TABLE[sd][pd]
-    other = OTHER_SAME_NAME if other_kind == 0 else (OTHER_NAME[sd] if other_kind == 1 else OTHER_NEAR[sd])
+    other = OTHER_SAME_NAME if other_kind == 0 else (OTHER_NAME[sd] if other_kind == 1 else OTHER_NEAR[sd] if other_kind == 2 else OTHER_DOTTED[sd])
     stmts = [target, other] if target_first else [other, target]
     stmts = stmts + [STMT[sr][pr]]
     match = strip(SCH[sr]) == strip(SCH[sd]) and strip(SPELL[pr]) == strip(SPELL[pd])
-    base_t, base_o = BASE_T[sd][pd], (BASE_OSN if other_kind == 0 else (BASE_ON[sd] if other_kind == 1 else BASE_NEAR[sd]))
+    base_t, base_o = BASE_T[sd][pd], (BASE_OSN if other_kind == 0 else (BASE_ON[sd] if other_kind == 1 else BASE_NEAR[sd] if other_kind == 2 else BASE_DOTTED[sd]))
     try:
         res = fmt(stmts, "sql")
     except ValueError:
@@ -175,7 +183,8 @@ def c_route(sd: int, pd: int, sr: int, pr: int, other_kind: int, target_first: b
 
 def api_c_route(sd, pd, sr, pr, other_kind, target_first):
     t_ddl = f"CREATE TABLE {qual(SCH[sd], SPELL[pd])} ({COLS});"
-    o_ddl = f"CREATE TABLE q.t ({COLS});" if other_kind == 0 else f"CREATE TABLE {qual(SCH[sd], 'u' if other_kind == 1 else 't$')} ({COLS});"
+    o_ddl = f"CREATE TABLE q.t ({COLS});" if other_kind == 0 else (f'CREATE TABLE "{qual(strip(SCH[sd]), "t")}" ({COLS});' if other_kind == 3 else
+                                                                   f"CREATE TABLE {qual(SCH[sd], 'u' if other_kind == 1 else 't$')} ({COLS});")
     ddl = "\n".join(([t_ddl, o_ddl] if target_first else [o_ddl, t_ddl]) + [KDDL.format(T=qual(SCH[sr], SPELL[pr]))])
     match = strip(SCH[sr]) == strip(SCH[sd]) and strip(SPELL[pr]) == strip(SPELL[pd])
     base_t = DDLParser(t_ddl).run()[0]
@@ -292,3 +301,64 @@ def api_c_no_cross_run(pd, pr):
     except ValueError:
         return {"reproduced": first != snap}
     return {"ddl2": KDDL.format(T=SPELL[pr]), "got": second, "first_result_now": first, "expected": "ValueError", "reproduced": True}
+
+
+# ---------------------------------------------------------------- redefinition / substring names
+REDEF = [_parse("CREATE TABLE t (a int);")[0], _parse("CREATE TABLE z (a int);\nCREATE UNIQUE INDEX i ON t (a);")[1],
+         _parse("CREATE TABLE z (a int);\nALTER TABLE t ADD d int;")[1], _parse("DROP TABLE t;")[0], _parse("CREATE TABLE t (a int, b int);")[0],
+         _parse("CREATE TABLE IF NOT EXISTS t (a int, c int);")[0]]
+SUBT = _parse("CREATE TABLE t (id int PRIMARY KEY, customer_id int, cust int, order_id int);")[0]
+SUB_DROP = [_parse("CREATE TABLE z (a int);\nALTER TABLE t DROP COLUMN " + c + ";")[1] for c in ("customer_id", "cust", "order_id", "id")]
+
+
+def c_redefine(with_index: bool, with_alter: bool, again: int) -> bool:
+    """
+    ALTER / CREATE INDEX statements reach the table that was defined *before* them even when the
+    same name is defined again later in the script (DROP TABLE + CREATE TABLE, or CREATE TABLE IF
+    NOT EXISTS): the earlier table gets the index / column, the later one does not.
+
+    pre: 3 <= again <= 5
+    post: _
+    """
+    stmts = [deepcopy(REDEF[0])] + ([deepcopy(REDEF[1])] if with_index else []) + ([deepcopy(REDEF[2])] if with_alter else [])
+    tail = [deepcopy(REDEF[3]), deepcopy(REDEF[4])] if again == 3 else [deepcopy(REDEF[again])]
+    res = fmt(stmts + tail, "sql")
+    first, later = res[0], res[-1]
+    ok_first = (len(first["index"]) == (1 if with_index else 0)) and ([c["name"] for c in first["columns"]] == (["a", "d"] if with_alter else ["a"]))
+    ok_later = later["index"] == [] and later["alter"] == {} and "d" not in [c["name"] for c in later["columns"]]
+    return ok_first and ok_later
+
+
+def api_c_redefine(with_index, with_alter, again):
+    ddl = "CREATE TABLE t (a int);\n" + ("CREATE UNIQUE INDEX i ON t (a);\n" if with_index else "") + ("ALTER TABLE t ADD d int;\n" if with_alter else "") + \
+        ("DROP TABLE t;\nCREATE TABLE t (a int, b int);" if again == 3 else "CREATE TABLE t (a int, b int);" if again == 4 else "CREATE TABLE IF NOT EXISTS t (a int, c int);")
+    res = DDLParser(ddl).run()
+    first, later = res[0], res[-1]
+    ok = (len(first["index"]) == (1 if with_index else 0)) and ([c["name"] for c in first["columns"]] == (["a", "d"] if with_alter else ["a"])) and \
+        later["index"] == [] and later["alter"] == {}
+    return {"ddl": ddl, "got": res, "reproduced": not ok}
+
+
+def c_drop_exact(k: int, k2: int) -> bool:
+    """
+    DROP COLUMN removes exactly the named column also when another column's name is contained
+    in it or contains it (id / customer_id / cust / order_id); primary_key keeps naming existing
+    columns only when the dropped one was not a key column.
+
+    pre: 0 <= k <= 2 and 0 <= k2 <= 2 and k != k2
+    post: _
+    """
+    names = ["customer_id", "cust", "order_id"]
+    res = fmt([deepcopy(SUBT), deepcopy(SUB_DROP[k]), deepcopy(SUB_DROP[k2])], "sql")
+    left = [c["name"] for c in res[0]["columns"]]
+    want = [n for n in ["id", "customer_id", "cust", "order_id"] if n not in (names[k], names[k2])]
+    return left == want and res[0]["primary_key"] == ["id"]
+
+
+def api_c_drop_exact(k, k2):
+    names = ["customer_id", "cust", "order_id"]
+    ddl = "CREATE TABLE t (id int PRIMARY KEY, customer_id int, cust int, order_id int);\n" + "\n".join(f"ALTER TABLE t DROP COLUMN {names[i]};" for i in (k, k2))
+    res = DDLParser(ddl).run()
+    left = [c["name"] for c in res[0]["columns"]]
+    want = [n for n in ["id", "customer_id", "cust", "order_id"] if n not in (names[k], names[k2])]
+    return {"ddl": ddl, "got_columns": left, "expected": want, "primary_key": res[0]["primary_key"], "reproduced": left != want or res[0]["primary_key"] != ["id"]}
